@@ -171,6 +171,24 @@ theorem dag_values_unique (g : LGraph) (K : List Obj) (hKt : ∀ k ∈ K, k.keyT
     (ρ ρ' : Obj → Option Obj) (h : Solution g K cache ρ) (h' : Solution g K cache ρ') : ∀ k, ρ k = ρ' k :=
   solution_unique g K hKt cache rank hdag ρ ρ' h h'
 
+
+/-- **The proved checker for real optimiser outputs** (`fuse`, `fuse_linear` without renaming, `inline`,
+    `inline_functions`): when `fuseOK g h S req` accepts the pair (input graph, output graph), every valuation satisfying
+    the input's equations satisfies the output's equations over the output's key set, and all requested keys are kept —
+    with `dag_values_unique`: the requested values are unchanged. The harness feeds every real output through it. -/
+theorem fuseOK_sound (g h : LGraph) (S req : List Obj) (hok : fuseOK g h S req = true)
+    (hKt : ∀ k ∈ g.map Prod.fst, k.keyTyped = true) (cache ρ : Obj → Option Obj)
+    (hsol : Solution g (g.map Prod.fst) cache ρ) :
+    (∀ k ∈ req, k ∈ h.map Prod.fst) ∧ ∀ k t, (k, t) ∈ h → ρ k = evalObj (h.map Prod.fst) ρ t :=
+  Dask.TaskTerm.fuseOK_sound g h S req hok hKt cache ρ hsol
+
+/-- non-vacuity: `fuse({'a': 1, 'b': (inc, 'a'), 'c': (inc, 'b')}, keys=['c'], rename_keys=False)` is accepted … -/
+example : fuseOK [(.str "a", .int 1), (.str "b", .tuple [.fn 0, .str "a"]), (.str "c", .tuple [.fn 0, .str "b"])]
+    [(.str "c", .tuple [.fn 0, .tuple [.fn 0, .int 1]])] [.str "a", .str "b"] [.str "c"] = true := by decide
+/-- … and an output that forgot to substitute `a` is rejected -/
+example : fuseOK [(.str "a", .int 1), (.str "b", .tuple [.fn 0, .str "a"]), (.str "c", .tuple [.fn 0, .str "b"])]
+    [(.str "c", .tuple [.fn 0, .tuple [.fn 0, .str "a"]])] [.str "a", .str "b"] [.str "c"] = false := by decide
+
 /-- non-vacuity: the doc-string example of `inline`: `z = (add, 'x', 'y')`, inlining `y = (inc, 'x')` -/
 example : subs (.str "y") (.tuple [.fn 1, .str "x"]) (.tuple [.fn 0, .str "x", .str "y"]) =
     .tuple [.fn 0, .str "x", .tuple [.fn 1, .str "x"]] := by decide
